@@ -428,6 +428,13 @@ def monitor(ops, tr):
                 ref = ref_expand(s)
                 if ref != pre_e:
                     bad("roundtrip", "ranged_string", "ranged string %r denotes %s, list is %s" % (s, brief(ref), brief(pre_e)))
+            elif op[2] > 0 and printable_state(pre["ranges"]) and res and res[0].lstrip("-").isdigit() and int(res[0]) >= 0:
+                # a bounded call either says `does not fit` (-1) or returns the WHOLE text: what it returns with a success status must
+                # denote the list (the daemon's growth loop trusts exactly that)
+                checks += 1
+                s = unhx(res[1]) if len(res) > 1 else b""
+                if ref_expand(s) != pre_e:
+                    bad("roundtrip", "ranged_string_bounded", "ranged_string with a %d-byte buffer returned %s and %r: that denotes %s, the list is %s" % (op[2], res[0], s, brief(ref_expand(s)), brief(pre_e)))
         elif kind == "RT" and pre_e is not None:
             e = op[2]
             if printable_state(pre["ranges"], allow_long=True):
@@ -777,6 +784,24 @@ def sanitize_case(ops):
     the nth calls, so that the tie stays deterministic (prefixes of 80..100 bytes, which do hit the red zone, are kept)"""
     longtok = any(isinstance(x, bytes) and any(len(t) > 100 for t in re.split(rb"[\t, \[\]]", x)) for o in ops for x in o[2:])
     return [o for o in ops if not (longtok and o[0] == "T")]
+
+
+def bounded_string_cases(rng):
+    """ranged_string into a buffer a few bytes around the true length, for lists whose text ends in an unbracketed numbered host, in a
+    bracket, in a plain name: the text of distinct-prefix names is their comma join, so the true length is known here"""
+    out = []
+    for tail in (b"zz-node107", b"zz[5-7]", b"plainname", b"q9", b"r[01-03]x"):
+        names = [b"aa1", b"bb22", b"cc-long-name-333", tail]
+        e = b",".join(names)
+        for _ in range(2):
+            ops = [("C", 0, e)]
+            for n in range(len(e) - 5, len(e) + 3):
+                ops.append(("R", 0, n))
+            out.append(("bounded-string", ops))
+        names2 = [b"x%d-%s" % (k, b"w" * rng.randint(1, 9)) for k in range(rng.randint(6, 9))] + [tail]
+        e2 = b",".join(names2)
+        out.append(("bounded-string", [("C", 0, e2)] + [("R", 0, n) for n in (80, 81, len(e2) - 2, len(e2) - 1, len(e2), len(e2) + 1, 160)]))
+    return out
 
 
 def generate(rng, n):
@@ -1257,7 +1282,7 @@ def run(ctx, V):
               "generated expressions and name lists (incl. CR, high bytes, list syntax inside names), non-trivial = expression with brackets or "
               "separators, list of two or more names")
     n = 1500 if quick else 24000
-    cases = load_corpus() + generate(ctx.rng, n)
+    cases = load_corpus() + bounded_string_cases(ctx.rng) + generate(ctx.rng, n)
     t0 = time.time()
     nv, nd = 0, 0
     step = 4000
